@@ -19,7 +19,7 @@ func init() {
 			"(R2b) the early-return guard's truth table is exactly: killed∧¬zombie, or user∧state≠running∧¬zombie; (R3) a dead-letter emission is dominated by a condition that separates the root, so the root cannot feed itself; " +
 			"(R4) the guard actor republishes a received dead letter exactly once on the event stream; (R5) both terminal paths of an actor whose mailbox may be paused resume it (parked mail drains to dead letters); " +
 			"(R6) every failing exit of the remoting send reports the envelope, and the report emits one dead letter. " +
-			"(R7) the mailbox cache inside a reference is written only with the mailbox of a context found registered at the reference's path, a dead-lettering mailbox, or the root's own for the root's path — never with the mailbox of an actor the reference does not name; (R10) when nothing is registered at a local path the lookup yields a mailbox whose Enqueue turns the envelope into a dead letter on every path (the root's own mailbox only for the root's own path). (R8 = C01.R2) a message accepted by Enqueue is never stranded in an idle mailbox; (R9) the registry removal routine, which deletes by path, is called only from the dying actor's own cleanup step with its own context. NOT decided: exactly-once accounting across racing sends and transitions; staleness of a correctly filled cache across name reuse.",
+			"(R7) the mailbox cache inside a reference is written only with the mailbox of a context found registered at the reference's path, a dead-lettering mailbox, or the root's own for the root's path — never with the mailbox of an actor the reference does not name; (R10) when nothing is registered at a local path the lookup yields a mailbox whose Enqueue turns the envelope into a dead letter on every path (the root's own mailbox only for the root's own path). (R8 = C01.R2) a message accepted by Enqueue is never stranded in an idle mailbox; (R9) the registry removal routine, which deletes by path, is called only from the dying actor's own cleanup step with its own context. (R11 = C09.R7) whatever the supervisor paused is recorded as a target on every path of apply-decision, so the resume of this or a higher level reaches it and parked mail surfaces; (R12 = C02.R6) a stashed message leaves the stash only through Unstash. NOT decided: exactly-once accounting across racing sends and transitions; staleness of a correctly filled cache across name reuse.",
 		Assumptions: []string{"the dead-letter emission is TellSelf(ves.DeathLetterEvent) on the system (root) context"},
 		Rules: []Rule{
 			{ID: "C03.R1", Min: 2, Desc: "mailbox lookup is total", Fn: c03Lookup},
@@ -602,7 +602,6 @@ func c03RegistryOwner(p *Program, r *Report) {
 	}
 }
 
-
 // c03Unregistered: "already terminated, never existed … however the sender obtained the reference": when nothing is
 // registered at a local path, the lookup must not hand the envelope to some live actor's mailbox (that actor would treat it as
 // its own: the guard ignores user messages, and a Kill would stop the root). On the registry's not-found edge every returned
@@ -733,7 +732,6 @@ func (p *Program) emitsDeadLetterFor(fn *ssa.Function, idx, depth int) bool {
 	}
 	return len(emits) > 0 && !anyIn(g.Reach(g.entry(), emits, nil), g.Exits)
 }
-
 
 // ownPathEdges: edges asserting "the reference's path is the system's own path".
 func ownPathEdges(p *Program, g *IG) map[edge]bool {
